@@ -412,8 +412,8 @@ pub(crate) fn lib_deallocate_list_two_members() {
     let (x, y) = (ccp::raw_of(&a), ccp::raw_of(&b));
     core::mem::forget((a, b));
     // as the collector leaves a garbage set: InList, tracing counter == counter (here: no internal edges)
-    let fin: bool = kani::any();
-    ccp::set_words_of(x, 0x8000, if fin { 0x4000 } else { 0 });
+    // counter words concrete (dyn dispatch follows): one member never finalized (finalization off / not due), one finalized
+    ccp::set_words_of(x, 0x8000, 0);
     ccp::set_words_of(y, 0x8000, 0x4000);
     let first = lp::chain(&[x, y], 2);
     state(|s| sp::set_flags(s, true, false, false));
